@@ -734,6 +734,9 @@ func nontrivial(t []string, out string) bool { return true }
 
 func bucket(t []string, out string) string {
 	k := t[0]
+	if t[0] == "wflow" || t[0] == "mp" {
+		return k
+	}
 	if t[0] == "chk" {
 		k += "/v" + field(t, "pver")
 	}
